@@ -62,10 +62,10 @@ theorem loopStart_inv (cfg : Cfg) (s : State) (tid : Nat) (forever : Bool) (h : 
     Inv (step cfg s (.loopStart tid forever)) := by
   simp only [step]
   obtain ⟨fq, fn, ft, fd, -, fa, fna, -, fcur, -, -, flt, fex, fca, fep, flog, fefd⟩ :=
-    ite_commit_frame s.inLoopQ.isEmpty { s with efd := some 0, loopTid := tid, log := .start tid :: s.log }
+    ite_commit_frame s.inLoopQ.isEmpty { s with efd := some 0, loopTid := tid, log := .start tid :: s.log, fdBad := s.efdFail, efdFail := false, wrLost := false, inPeak := 0, nextPeak := 0 }
   simp only at fq fn ft fd fa fna fcur flt fex fca fep flog fefd
-  generalize (if s.inLoopQ.isEmpty then { s with efd := some 0, loopTid := tid, log := .start tid :: s.log }
-    else commit { s with efd := some 0, loopTid := tid, log := .start tid :: s.log }) = s2 at *
+  generalize (if s.inLoopQ.isEmpty then ({ s with efd := some 0, loopTid := tid, log := .start tid :: s.log, fdBad := s.efdFail, efdFail := false, wrLost := false, inPeak := 0, nextPeak := 0 } : State)
+    else commit { s with efd := some 0, loopTid := tid, log := .start tid :: s.log, fdBad := s.efdFail, efdFail := false, wrLost := false, inPeak := 0, nextPeak := 0 }) = s2 at *
   have hq := h.shapeQuiet (Or.inl hp)
   have hcore : Core { s2 with keepRunning := forever, phase := .poll } := by
     refine core_same h ?_ fca fa fna
@@ -86,10 +86,11 @@ theorem loopStart_inv (cfg : Cfg) (s : State) (tid : Nat) (forever : Bool) (h : 
             exact fun id hid => Or.inl (h.exitDone (by simp [hp]) id hid) }
 
 theorem passWake_inv (s : State) (h : Inv s) (hp : s.phase = .pre) :
-    Inv { s with inLoopQ := s.tmpQ, tmpQ := s.inLoopQ, efd := s.efd.map (fun _ => 0), hasCommit := false, phase := .wake } := by
+    Inv { s with inLoopQ := s.tmpQ, tmpQ := s.inLoopQ, efd := if s.rdFail then s.efd else s.efd.map (fun _ => 0),
+                 rdFail := false, hasCommit := false, wrLost := false, phase := .wake } := by
   obtain ⟨ht, hcur, hd⟩ := h.shapeQuiet (Or.inr (Or.inr (Or.inl hp)))
-  have hcore : Core { s with inLoopQ := s.tmpQ, tmpQ := s.inLoopQ, efd := s.efd.map (fun _ => 0), hasCommit := false,
-                             phase := .wake } := by
+  have hcore : Core { s with inLoopQ := s.tmpQ, tmpQ := s.inLoopQ, efd := if s.rdFail then s.efd else s.efd.map (fun _ => 0),
+                             rdFail := false, hasCommit := false, wrLost := false, phase := .wake } := by
     refine core_swap h s.executed.reverse (idsOf s.nextQ) (idsOf s.inLoopQ) ?_ ?_
       (idsOf_par_next _ h.parNext) (idsOf_par_in _ h.parIn) rfl rfl rfl
     · rw [line_def]; simp [ht, hd]
@@ -97,9 +98,26 @@ theorem passWake_inv (s : State) (h : Inv s) (hp : s.phase = .pre) :
   have hfd := h.fdRun
   exact { count := hcore.1, allocPar := h.allocPar, parIn := by simp [ht], parNext := h.parNext, order := hcore.2,
           shapeQuiet := by simp, shapeBatch := fun _ => hd, shapeDrain := by simp,
-          fdRun := by simp [hp] at hfd; simp [hfd],
+          fdRun := by simp [hp] at hfd; cases s.rdFail <;> simp [hfd],
           driver := fun _ => h.driver (by simp [hp]), execs := h.execs, logExec := h.logExec, logCanc := h.logCanc,
           exitPend := fun id hid => Or.inl (h.exitDone (by simp [hp]) id hid) }
+
+/-- entering the shutdown drain from a pass (end of the pass, or the select engine's `break`) -/
+theorem enterDrain_inv (s : State) (h : Inv s) (hp : s.phase = .next ∨ s.phase = .pre) (hc : s.cur = []) (ht : s.tmpQ = [])
+    (hd : s.dQ = []) (b : Bool) :
+    Inv { s with phase := .drain, remain := 100, destroying := false, broke := b,
+                 exitPending := idsOf s.nextQ ++ idsOf s.inLoopQ } := by
+  have hfd := h.fdRun
+  have hsome : s.efd.isSome = true := by rcases hp with hp | hp <;> simp [hp] at hfd <;> exact hfd
+  have hdr := h.driver (by rcases hp with hp | hp <;> simp [hp])
+  have hcore := core_same (s' := { s with phase := .drain, remain := 100, destroying := false, broke := b,
+                                          exitPending := idsOf s.nextQ ++ idsOf s.inLoopQ }) h rfl rfl rfl rfl
+  exact { count := hcore.1, allocPar := h.allocPar, parIn := h.parIn, parNext := h.parNext, order := hcore.2,
+          shapeQuiet := by simp, shapeBatch := by simp,
+          shapeDrain := fun _ => ⟨ht, fun _ => ⟨hc, hd⟩, Nat.le_refl _⟩,
+          fdRun := by simp [hsome],
+          driver := fun _ => hdr, execs := h.execs, logExec := h.logExec, logCanc := h.logCanc,
+          exitPend := fun id hid => Or.inr ⟨rfl, Or.inr ⟨rfl, by simpa using hid⟩⟩ }
 
 theorem execFront_inv (s : State) (h : Inv s) (hp : s.phase = .wake ∨ s.phase = .next) (t : Task) (rest : List Task)
     (hq : s.tmpQ = t :: rest) :
@@ -218,6 +236,30 @@ theorem drainEnd_inv (cfg : Cfg) (s : State) (h : Inv s) (hp : s.phase = .drain)
   simp only [step]
   by_cases hdes : s.destroying = true
   · rw [if_pos hdes]
+    by_cases huc : s.userCleanup = true
+    · rw [if_pos huc]
+      have hcore := core_same (s' := { s with phase := .idle, userCleanup := false }) h rfl rfl rfl rfl
+      exact { count := hcore.1, allocPar := h.allocPar, parIn := h.parIn, parNext := h.parNext, order := hcore.2,
+              shapeQuiet := fun _ => ⟨ht, hc, hd⟩, shapeBatch := by simp, shapeDrain := by simp,
+              fdRun := by simp [hfd, hdes],
+              driver := by simp, execs := h.execs, logExec := h.logExec, logCanc := h.logCanc,
+              exitPend := fun id hid => Or.inl (hdone id hid) }
+    rw [if_neg huc]
+    by_cases hfin : s.finalDrain = false
+    · -- ~CommonLoop: the exit timer is deleted, a second drain begins
+      simp only [hfin, Bool.not_false, ↓reduceIte]
+      have h1 := dropExitTimer_inv s s.loopTid h
+      obtain ⟨f1, f2, f3, f4, f5, f6, f7, f8, -, -, -, f12, -⟩ := dropExitTimer_frame s s.loopTid
+      have hcore := core_same (s' := { dropExitTimer s s.loopTid with remain := 100, finalDrain := true }) h1 rfl rfl rfl rfl
+      exact { count := hcore.1, allocPar := h1.allocPar, parIn := h1.parIn, parNext := h1.parNext, order := hcore.2,
+              shapeQuiet := by simp [f1, hp], shapeBatch := by simp [f1, hp],
+              shapeDrain := fun _ => ⟨by simp [f2, ht], fun _ => ⟨by simp [f3, hc], by simp [f4, hd]⟩, Nat.le_refl _⟩,
+              fdRun := by simp [f1, hp, f7, hdes, f8, hfd],
+              driver := fun _ => by simpa [f12] using h1.driver (by simp [f1, hp]),
+              execs := h1.execs, logExec := h1.logExec, logCanc := h1.logCanc,
+              exitPend := fun id hid => Or.inl (by simp only [f5]; exact hdone id (by simpa [f6] using hid)) }
+    simp only [Bool.not_eq_false] at hfin
+    simp only [hfin, Bool.not_true, Bool.false_eq_true, ↓reduceIte]
     have hcore := core_same (s' := { s with phase := .dead }) h rfl rfl rfl rfl
     exact { count := hcore.1, allocPar := h.allocPar, parIn := h.parIn, parNext := h.parNext, order := hcore.2,
             shapeQuiet := fun _ => ⟨ht, hc, hd⟩, shapeBatch := by simp, shapeDrain := by simp,
@@ -226,7 +268,7 @@ theorem drainEnd_inv (cfg : Cfg) (s : State) (h : Inv s) (hp : s.phase = .drain)
             exitPend := fun id hid => Or.inl (hdone id hid) }
   · rw [if_neg hdes]
     have hcore := core_same (s' := { s with phase := .idle, efd := none,
-                                            hasCommit := if cfg.clearOnClose then false else s.hasCommit })
+                                            hasCommit := if cfg.clearOnClose then false else s.hasCommit, fdBad := false, wrLost := false })
       h rfl rfl rfl rfl
     exact { count := hcore.1, allocPar := h.allocPar, parIn := h.parIn, parNext := h.parNext, order := hcore.2,
             shapeQuiet := fun _ => ⟨ht, hc, hd⟩, shapeBatch := by simp, shapeDrain := by simp,
@@ -234,20 +276,24 @@ theorem drainEnd_inv (cfg : Cfg) (s : State) (h : Inv s) (hp : s.phase = .drain)
             driver := by simp, execs := h.execs, logExec := h.logExec, logCanc := h.logCanc,
             exitPend := fun id hid => Or.inl (hdone id hid) }
 
-theorem destroy_inv (s : State) (tid : Nat) (h : Inv s) (hp : s.phase = .idle) :
-    Inv { s with phase := .drain, remain := 100, destroying := true, loopTid := tid,
-                 exitPending := idsOf s.nextQ ++ idsOf s.inLoopQ, log := .destroy tid :: s.log } := by
+theorem destroy_inv (s : State) (tid : Nat) (h : Inv s) (hp : s.phase = .idle) (uc : Bool) (ev : Ev)
+    (hev : ev = .destroy tid ∨ ev = .cleanup tid) :
+    Inv { s with phase := .drain, remain := 100, destroying := true, userCleanup := uc, loopTid := tid,
+                 exitPending := idsOf s.nextQ ++ idsOf s.inLoopQ, log := ev :: s.log } := by
   obtain ⟨ht, hc, hd⟩ := h.shapeQuiet (Or.inl hp)
   have hfd := h.fdRun
   simp [hp] at hfd
-  have hcore := core_same (s' := { s with phase := .drain, remain := 100, destroying := true, loopTid := tid,
+  have hcore := core_same (s' := { s with phase := .drain, remain := 100, destroying := true, userCleanup := uc, loopTid := tid,
                                           exitPending := idsOf s.nextQ ++ idsOf s.inLoopQ,
-                                          log := .destroy tid :: s.log }) h rfl rfl rfl rfl
+                                          log := ev :: s.log }) h rfl rfl rfl rfl
   exact { count := hcore.1, allocPar := h.allocPar, parIn := h.parIn, parNext := h.parNext, order := hcore.2,
           shapeQuiet := by simp, shapeBatch := by simp,
           shapeDrain := fun _ => ⟨ht, fun _ => ⟨hc, hd⟩, Nat.le_refl _⟩,
           fdRun := by simp [hfd],
-          driver := by simp, execs := h.execs, logExec := h.logExec, logCanc := h.logCanc,
+          driver := by rcases hev with e | e <;> simp [e],
+          execs := by rcases hev with e | e <;> simp [e, h.execs],
+          logExec := by rcases hev with e | e <;> simp [e, h.logExec],
+          logCanc := by rcases hev with e | e <;> simp [e, h.logCanc],
           exitPend := fun id hid => Or.inr ⟨rfl, Or.inr ⟨rfl, by simpa using hid⟩⟩ }
 
 theorem step_inv (cfg : Cfg) (s : State) (st : Step) (h : Inv s) (hv : valid s st = true) : Inv (step cfg s st) := by
@@ -277,10 +323,10 @@ theorem step_inv (cfg : Cfg) (s : State) (st : Step) (h : Inv s) (hv : valid s s
     rcases hv.1.1 with e | e <;> rw [hp] at e <;> cases e
   | passWake =>
     simp only [valid, Bool.and_eq_true, beq_iff_eq] at hv
-    exact passWake_inv s h hv.1
+    exact passWake_inv s h hv.1.1
   | passSkip =>
     simp only [valid, Bool.and_eq_true, beq_iff_eq] at hv
-    obtain ⟨hp, -⟩ := hv
+    obtain ⟨⟨⟨hp, -⟩, -⟩, -⟩ := hv
     have hq := h.shapeQuiet (by simp [hp])
     have hfd := h.fdRun
     simp [hp] at hfd
@@ -290,7 +336,20 @@ theorem step_inv (cfg : Cfg) (s : State) (st : Step) (h : Inv s) (hv : valid s s
             fdRun := by simp [step, hfd],
             driver := fun _ => h.driver (by simp [hp]), execs := h.execs, logExec := h.logExec, logCanc := h.logCanc,
             exitPend := fun id hid => Or.inl (h.exitDone (by simp [hp]) id hid) }
-  | timerExit => exact flags_inv s false false h
+  | timerExit => exact inv_congr h rfl rfl rfl rfl rfl rfl rfl rfl rfl rfl rfl rfl rfl rfl rfl rfl
+  | fault f => cases f <;> exact inv_congr h rfl rfl rfl rfl rfl rfl rfl rfl rfl rfl rfl rfl rfl rfl rfl rfl
+  | tick d => exact inv_congr h rfl rfl rfl rfl rfl rfl rfl rfl rfl rfl rfl rfl rfl rfl rfl rfl
+  | setWL a b => exact inv_congr h rfl rfl rfl rfl rfl rfl rfl rfl rfl rfl rfl rfl rfl rfl rfl rfl
+  | submitRun tid k =>
+    simp only [valid, Bool.and_eq_true, bne_iff_ne, ne_eq] at hv
+    exact doAct_inv cfg s tid (.run k) h (fun hh => hv.1.1.1 hh.1)
+  | passBreak =>
+    simp only [valid, Bool.and_eq_true, beq_iff_eq] at hv
+    obtain ⟨ht, hc, hd⟩ := h.shapeQuiet (by simp [hv.1.1])
+    exact enterDrain_inv s h (Or.inr hv.1.1) hc ht hd false
+  | cleanup tid =>
+    simp only [valid, beq_iff_eq] at hv
+    exact destroy_inv s tid h hv true _ (Or.inr rfl)
   | execFront =>
     simp only [valid, Bool.and_eq_true, Bool.or_eq_true, beq_iff_eq] at hv
     cases hq : s.tmpQ with
@@ -326,7 +385,7 @@ theorem step_inv (cfg : Cfg) (s : State) (st : Step) (h : Inv s) (hv : valid s s
     exact drainEnd_inv cfg s h hv.1.1.1 hv.1.1.2 hv.1.2 hv.2
   | destroy tid =>
     simp only [valid, beq_iff_eq] at hv
-    exact destroy_inv s tid h hv
+    exact inv_congr (destroy_inv s tid h hv false _ (Or.inl rfl)) rfl rfl rfl rfl rfl rfl rfl rfl rfl rfl rfl rfl rfl rfl rfl rfl
 
 theorem step_wake (cfg : Cfg) (hfix : cfg.clearOnClose = true) (s : State) (st : Step)
     (h : Inv s) (hw : WakeInv s) (hv : valid s st = true) : WakeInv (step cfg s st) := by
@@ -337,51 +396,215 @@ theorem step_wake (cfg : Cfg) (hfix : cfg.clearOnClose = true) (s : State) (st :
     simp only [valid, beq_iff_eq] at hv
     have hfd := h.fdRun
     simp [hv] at hfd
-    have hc := hw.closed hfd
     simp only [step]
-    cases hq : s.inLoopQ with
-    | nil => refine ⟨?_, ?_, ?_⟩ <;> simp [hc]
-    | cons t q => refine ⟨?_, ?_, ?_⟩ <;> simp [commit, hc]
-  | passBegin => exact ⟨hw.counter, hw.closed, hw.armed⟩
+    by_cases hq : s.inLoopQ.isEmpty = true
+    · simp only [hq, ↓reduceIte]
+      refine ⟨?_, ?_, ?_⟩
+      · intro n hn hcm; simp [hw.closed hfd] at hcm
+      · simp
+      · intro _ hne; simp only [List.isEmpty_iff] at hq; exact absurd hq hne
+    · simp only [hq, ↓reduceIte]
+      have key := commit_wake { s with efd := some 0, loopTid := tid, log := .start tid :: s.log, fdBad := s.efdFail, efdFail := false, wrLost := false, inPeak := 0, nextPeak := 0 }
+        (by intro n _ hcm; simp [hw.closed hfd] at hcm) rfl
+      exact wake_congr key.1 rfl rfl rfl (fun e => e)
+  | passBegin => exact wake_congr hw rfl rfl rfl (fun e => e)
   | cbAct a => exact doAct_wake cfg s _ a hw
   | passWake =>
     simp only [valid, Bool.and_eq_true, beq_iff_eq] at hv
-    obtain ⟨ht, -, -⟩ := h.shapeQuiet (by simp [hv.1])
+    obtain ⟨ht, -, -⟩ := h.shapeQuiet (by simp [hv.1.1])
     simp only [step]
     refine ⟨?_, ?_, ?_⟩
-    · intro n hn; cases he : s.efd <;> simp [he] at hn ⊢; omega
+    · intro n _ hcm; simp at hcm
     · simp
     · simp [ht]
-  | timerExit => exact ⟨hw.counter, hw.closed, hw.armed⟩
-  | passSkip => exact ⟨hw.counter, hw.closed, hw.armed⟩
+  | timerExit => exact wake_congr hw rfl rfl rfl (fun e => e)
+  | passSkip => exact wake_congr hw rfl rfl rfl (fun e => e)
   | execFront =>
     cases hq : s.tmpQ with
     | nil => simp only [step, hq]; exact hw
-    | cons t rest => simp only [step, hq]; exact ⟨hw.counter, hw.closed, hw.armed⟩
+    | cons t rest => simp only [step, hq]; exact wake_congr hw rfl rfl rfl (fun e => e)
   | act =>
     cases hc : s.cur with
     | nil => simp only [step, hc]; exact hw
     | cons a rest =>
       simp only [step, hc]
-      exact doAct_wake cfg _ _ a ⟨hw.counter, hw.closed, hw.armed⟩
-  | passNext => exact ⟨hw.counter, hw.closed, hw.armed⟩
+      exact doAct_wake cfg _ _ a (wake_congr hw rfl rfl rfl (fun e => e))
+  | passNext => exact wake_congr hw rfl rfl rfl (fun e => e)
   | passEnd =>
     simp only [step]
     split
-    · exact ⟨hw.counter, hw.closed, hw.armed⟩
-    · exact ⟨hw.counter, hw.closed, hw.armed⟩
+    · exact wake_congr hw rfl rfl rfl (fun e => e)
+    · exact wake_congr hw rfl rfl rfl (fun e => e)
   | drainGen => exact ⟨hw.counter, hw.closed, by simp [step]⟩
   | drainExec =>
     cases hq : s.dQ with
     | nil => simp only [step, hq]; exact hw
-    | cons t rest => simp only [step, hq]; exact ⟨hw.counter, hw.closed, hw.armed⟩
+    | cons t rest => simp only [step, hq]; exact wake_congr hw rfl rfl rfl (fun e => e)
   | drainEnd =>
     -- the only place where the repair (flag cleared when the eventfd is closed) is needed
     simp only [step, hfix, ↓reduceIte]
     by_cases hdes : s.destroying = true
-    · rw [if_pos hdes]; exact ⟨hw.counter, hw.closed, hw.armed⟩
+    · rw [if_pos hdes]
+      by_cases huc : s.userCleanup = true
+      · rw [if_pos huc]; exact wake_congr hw rfl rfl rfl (fun e => e)
+      · rw [if_neg huc]
+        split
+        · obtain ⟨-, -, -, -, -, -, -, f8, f9, f10, f11, -, -⟩ := dropExitTimer_frame s s.loopTid
+          exact wake_congr hw f8 f9 f10 (by simp only [f11]; exact fun e => e)
+        · exact wake_congr hw rfl rfl rfl (fun e => e)
     · rw [if_neg hdes]; refine ⟨?_, ?_, ?_⟩ <;> simp
-  | destroy tid => exact ⟨hw.counter, hw.closed, hw.armed⟩
+  | destroy tid => exact wake_congr hw rfl rfl rfl (fun e => e)
+  | fault f => cases f <;> exact wake_congr hw rfl rfl rfl (fun e => e)
+  | tick d => exact wake_congr hw rfl rfl rfl (fun e => e)
+  | setWL a b => exact wake_congr hw rfl rfl rfl (fun e => e)
+  | submitRun tid k => exact doAct_wake cfg s tid (.run k) hw
+  | passBreak => exact wake_congr hw rfl rfl rfl (fun e => e)
+  | cleanup tid => exact wake_congr hw rfl rfl rfl (fun e => e)
+
+/-- the exit timer is found due only when armed and expired -/
+theorem doAct_time (cfg : Cfg) (s : State) (tid : Nat) (a : Act) (ht : TimeInv s) : TimeInv (doAct cfg s tid a) := by
+  have hin : ∀ body, (submitInLoop s tid body).timerDue = s.timerDue ∧ (submitInLoop s tid body).exitTimer = s.exitTimer ∧
+      (submitInLoop s tid body).exitAt = s.exitAt ∧ (submitInLoop s tid body).clock = s.clock ∧ (submitInLoop s tid body).phase = s.phase := by
+    intro body
+    simp only [submitInLoop, noteIn]
+    split
+    · unfold commit; split
+      · simp
+      · split <;> simp
+    · simp
+  cases a with
+  | inLoop k => obtain ⟨a, b, c, d, e⟩ := hin (cfg.prog k); exact ⟨by simp only [doAct]; rw [a, b, c, d, e]; exact ht.due⟩
+  | next k => exact ⟨ht.due⟩
+  | cancel id =>
+    refine ⟨?_⟩
+    simp only [doAct, cancel]
+    split
+    · exact ht.due
+    · split
+      · exact ht.due
+      · split <;> exact ht.due
+  | exit =>
+    refine ⟨?_⟩
+    simp only [doAct, dropExitTimer]
+    split
+    · simp
+    · exact ht.due
+  | exitLater w =>
+    refine ⟨?_⟩
+    simp only [doAct, dropExitTimer]
+    split
+    · simp
+    · rename_i hne
+      intro hd
+      exact absurd (ht.due hd).1 hne
+  | throw => exact ⟨ht.due⟩
+  | run k =>
+    simp only [doAct]
+    split
+    · obtain ⟨a, b, c, d, e⟩ := hin (cfg.prog k); exact ⟨by rw [a, b, c, d, e]; exact ht.due⟩
+    · exact ⟨ht.due⟩
+  | nestedRun => exact ht
+
+theorem init_time : TimeInv init := ⟨by simp [init]⟩
+
+theorem step_time (cfg : Cfg) (s : State) (st : Step) (ht : TimeInv s) (hv : valid s st = true) : TimeInv (step cfg s st) := by
+  have leave : ∀ s' : State, s'.timerDue = s.timerDue → s'.exitTimer = s.exitTimer → s'.exitAt = s.exitAt → s.clock ≤ s'.clock →
+      (s.timerDue = true → s'.phase = .pre) → TimeInv s' := by
+    intro s' e1 e2 e3 e4 e5
+    refine ⟨?_⟩
+    rw [e1, e2, e3]; intro hd
+    obtain ⟨a, b, _⟩ := ht.due hd
+    exact ⟨a, Nat.le_trans b e4, e5 hd⟩
+  have off : ∀ s' : State, s'.timerDue = false → TimeInv s' := fun s' e => ⟨by rw [e]; intro hh; cases hh⟩
+  have notDue : ∀ p : Phase, s.phase = p → p ≠ .pre → s.timerDue = false := by
+    intro p hp hne
+    cases hd : s.timerDue with
+    | false => rfl
+    | true => exact absurd (hp ▸ (ht.due hd).2.2) hne
+  cases st with
+  | submit tid k =>
+    have := doAct_time cfg s tid (.inLoop k) ht
+    exact this
+  | idleAct tid a => exact doAct_time cfg s tid a ht
+  | cbAct a => exact doAct_time cfg s _ a ht
+  | submitRun tid k => exact doAct_time cfg s tid (.run k) ht
+  | loopStart tid forever =>
+    simp only [valid, beq_iff_eq] at hv
+    refine off _ ?_
+    have := notDue _ hv (by simp)
+    simp only [step]
+    split
+    · simpa using this
+    · unfold commit; split
+      · simpa using this
+      · split <;> simpa using this
+  | passBegin =>
+    refine ⟨?_⟩
+    simp only [step, Bool.and_eq_true, decide_eq_true_eq]
+    intro hd; exact ⟨hd.1, hd.2, trivial⟩
+  | timerExit => exact off _ rfl
+  | passWake =>
+    simp only [valid, Bool.and_eq_true, beq_iff_eq, Bool.not_eq_true'] at hv
+    exact off _ hv.2
+  | passSkip =>
+    simp only [valid, Bool.and_eq_true, beq_iff_eq, Bool.not_eq_true'] at hv
+    exact off _ hv.1.2
+  | passBreak =>
+    simp only [valid, Bool.and_eq_true, beq_iff_eq, Bool.not_eq_true'] at hv
+    exact off _ hv.2
+  | execFront =>
+    simp only [valid, Bool.and_eq_true, Bool.or_eq_true, beq_iff_eq] at hv
+    have hnd : s.timerDue = false := by
+      rcases hv.1.1 with e | e
+      · exact notDue _ e (by simp)
+      · exact notDue _ e (by simp)
+    refine off _ ?_
+    simp only [step]; split <;> simpa using hnd
+  | act =>
+    cases hc : s.cur with
+    | nil => simp only [step, hc]; exact ht
+    | cons a rest =>
+      simp only [step, hc]
+      exact doAct_time cfg _ _ a ⟨ht.due⟩
+  | passNext =>
+    simp only [valid, Bool.and_eq_true, beq_iff_eq] at hv
+    exact off _ (notDue _ hv.1.1 (by simp))
+  | passEnd =>
+    simp only [valid, Bool.and_eq_true, beq_iff_eq] at hv
+    refine off _ ?_
+    have := notDue _ hv.1.1 (by simp)
+    simp only [step]; split <;> simpa using this
+  | drainGen =>
+    simp only [valid, Bool.and_eq_true, beq_iff_eq] at hv
+    exact off _ (notDue _ hv.1.1.1 (by simp))
+  | drainExec =>
+    simp only [valid, Bool.and_eq_true, beq_iff_eq] at hv
+    refine off _ ?_
+    have := notDue _ hv.1.1 (by simp)
+    simp only [step]; split <;> simpa using this
+  | drainEnd =>
+    simp only [valid, Bool.and_eq_true, beq_iff_eq] at hv
+    refine off _ ?_
+    have := notDue _ hv.1.1.1 (by simp)
+    simp only [step]; split
+    · split
+      · simpa using this
+      · split
+        · have f := (dropExitTimer_frame s s.loopTid).2.2.2.2.2.2.2.2.2.2.2.2
+          cases hdd : (dropExitTimer s s.loopTid).timerDue with
+          | false => simpa using hdd
+          | true => rw [f hdd] at this; cases this
+        · simpa using this
+    · simpa using this
+  | destroy tid =>
+    simp only [valid, beq_iff_eq] at hv
+    exact off _ (notDue _ hv (by simp))
+  | cleanup tid =>
+    simp only [valid, beq_iff_eq] at hv
+    exact off _ (notDue _ hv (by simp))
+  | fault f => cases f <;> exact leave _ rfl rfl rfl (Nat.le_refl _) (fun hd => (ht.due hd).2.2)
+  | tick d => exact leave _ rfl rfl rfl (Nat.le_add_right _ _) (fun hd => (ht.due hd).2.2)
+  | setWL a b => exact leave _ rfl rfl rfl (Nat.le_refl _) (fun hd => (ht.due hd).2.2)
 
 theorem exec_inv (cfg : Cfg) (s : State) (sts : List Step) (h : Inv s) (s' : State)
     (he : exec cfg s sts = some s') : Inv s' := by
@@ -391,6 +614,16 @@ theorem exec_inv (cfg : Cfg) (s : State) (sts : List Step) (h : Inv s) (s' : Sta
     simp only [exec] at he
     split at he
     · rename_i hv; exact ih _ (step_inv cfg s st h hv) he
+    · cases he
+
+theorem exec_time (cfg : Cfg) (s : State) (sts : List Step) (ht : TimeInv s) (s' : State)
+    (he : exec cfg s sts = some s') : TimeInv s' := by
+  induction sts generalizing s with
+  | nil => simp only [exec, Option.some.injEq] at he; exact he ▸ ht
+  | cons st sts ih =>
+    simp only [exec] at he
+    split at he
+    · rename_i hv; exact ih _ (step_time cfg s st ht hv) he
     · cases he
 
 theorem exec_wake (cfg : Cfg) (hfix : cfg.clearOnClose = true) (s : State) (sts : List Step)
